@@ -7,6 +7,9 @@ ENGINES = [
 ]
 
 PHASES = {
+    "C04": [
+        {"pkg": "e1", "test": "TestC04Queue", "phase": "C04/queue-sequences"},
+    ],
     "C06": [
         {"pkg": "e1", "test": "TestC06Pool", "phase": "C06/allocator-states"},
     ],
@@ -17,6 +20,12 @@ PHASES = {
 }
 
 META = {
+    "C04": {
+        "engine": "E1-seqx + E4-schedx",
+        "technique": "exhaustive bounded operation sequences on the real in-flight queue vs a map model; exhaustive preemption-bounded interleavings for the concurrent clause",
+        "text": "Every register/acknowledge/sweep sequence up to depth 4 (quick) / 5 (thorough) over 3 colliding keys, 2-4 packet kinds, equal / same-second / past / future deadlines, wrong-type and unknown-id acknowledgements and 3 sweep times, on the real ack.Queue over both timeout-list implementations; each entry must get exactly one outcome, duplicates are rejected, no operation touches another entry, and a final far-future sweep must resolve everything pending.",
+        "note": "Deadline/sweep domains keep every (deadline, now) pair >= 1 s apart so rounding inside a second is never judged. Spurious List.Expire results for already-deleted ids are not judged.",
+    },
     "C06": {
         "engine": "E1-seqx",
         "technique": "explicit-state BFS to fixpoint over the real allocator vs a set model, plus bounded sequences at the production-range edges",
